@@ -322,7 +322,8 @@ class RefExec:
             tok = self.token(path)
             tf = None
             if fault == "raise_tf":
-                tf = ("user message " + tok, {"code": tok, "n": 7})
+                # (reported message, extensions, developer message or None when there is no separate user message)
+                tf = ("user message " + tok, {"code": tok, "n": 7}, ("developer message " + tok) if self.tp(path, "#tf").chance(40) else None)
             p.results[path] = ("raise", fault, tok, tf)
             self.fire(fault)
             ff = FieldFail(path, fault)
